@@ -114,6 +114,8 @@ def run_shard(ctx):
     from . import c14
     for k in range(ctx.scale(10, 150)):
         c14.cli_case(ctx, ctx.shard * 100000 + 50000 + k)
+    for k in range(ctx.scale(5, 80)):
+        c14.cli_pair_case(ctx, ctx.shard * 100000 + 50000 + k)
 
 
 def verdict_hook(merged, tier):
@@ -125,8 +127,8 @@ def verdict_hook(merged, tier):
 
 def replay(ctx, case):
     ctx.shard = case["k"] // 100000
-    if case.get("kind") == "cli":
+    if case.get("kind") in ("cli", "clipair"):
         from . import c14
-        c14.cli_case(ctx, case["k"])
+        (c14.cli_case if case["kind"] == "cli" else c14.cli_pair_case)(ctx, case["k"])
         return
     one_case(ctx, case["k"])
